@@ -15,6 +15,7 @@ package main
 //   output       level and scale of the bootstrapped ciphertext
 // Probes (property predicates evaluated on the real code):
 //   shallowcopy_no_shared_scratch (reflection), shallowcopy_interleaved, shallowcopy_concurrent (thorough),
+//   mod1_step (c18_mod1.go), input_unchanged, evaluate_scale_precision,
 //   key_levels_sufficient, inadmissible_rejected, sparse_key_confined, sparse_secret_recovered, keys_sufficient, required_stable, output_level_scale,
 //   bootstrap_precision (measured), c2s_s2c_inverse (measured), batch_bootstrap (measured),
 //   shallowcopy_matches (copies of the evaluator), no_p_keygen, defaults_instantiable,
@@ -62,6 +63,7 @@ func genC18(c *Ctx) {
 	c18Defaults(c)
 	c18NoP(c)
 	c18C2SS2C(c)
+	c18Mod1Step(c)
 	c18GroupedPatched(c)
 	for _, cfg := range c18Configs(c) {
 		if only := os.Getenv("C18_ONLY"); only != "" && only != cfg.name {
@@ -217,52 +219,73 @@ func c18DFTLayers(c *Ctx) {
 	}
 	for _, enc := range []bool{true, false} {
 		for L := 1; L <= maxL; L++ {
-			n := 1 << L
-			levels := make([]int, L)
-			for i := range levels {
-				levels[i] = 1
-			}
-			typ := dft.HomomorphicDecode
-			sigma := 1.0
-			if enc {
-				typ = dft.HomomorphicEncode
-				sigma = math.Pow(1/float64(n), 1/float64(L))
-			}
-			lit := dft.MatrixLiteral{Type: typ, LogSlots: L, Levels: levels, Format: dft.Standard}
-			out := Try(func() string {
-				var ms []string
-				for _, m := range lit.GenMatrices(L+1, 128) {
-					var idx []int
-					for d := range m {
-						idx = append(idx, d)
-					}
-					sort.Ints(idx)
-					var ds []string
-					for _, d := range idx {
-						codes := make([]uint64, n)
-						for x := 0; x < n; x++ {
-							v := toC(m[d][x]) / complex(sigma, 0)
-							if cmplx.Abs(v) < 1e-9 {
-								codes[x] = uint64(4 * n)
-								continue
-							}
-							k := int(math.Round(cmplx.Phase(v)*float64(4*n)/(2*math.Pi))) % (4 * n)
-							if k < 0 {
-								k += 4 * n
-							}
-							if cmplx.Abs(v-cmplx.Rect(1, 2*math.Pi*float64(k)/float64(4*n))) > 1e-9 {
-								return "not-a-root"
-							}
-							codes[x] = uint64(k)
+			for _, bitrev := range []bool{false, true} {
+				for _, format := range []dft.Format{dft.Standard, dft.SplitRealAndImag, dft.RepackImagAsReal} {
+					for _, logN := range []int{L + 1, L + 2} {
+						if L > 4 && (bitrev || format != dft.Standard || logN != L+1) && !c.Thorough() {
+							continue // quick tier: the larger sizes only in the plain layout
 						}
-						ds = append(ds, I(d)+":"+Vec(codes))
+						n := 1 << L
+						length := n
+						if format == dft.RepackImagAsReal && L < logN-1 {
+							length = 2 * n
+						}
+						levels := make([]int, L)
+						for i := range levels {
+							levels[i] = 1
+						}
+						typ := dft.HomomorphicDecode
+						sigma := 1.0
+						if enc {
+							typ = dft.HomomorphicEncode
+							div := float64(n)
+							if format != dft.Standard {
+								div = float64(2 * n)
+							}
+							sigma = math.Pow(1/div, 1/float64(L))
+						}
+						lit := dft.MatrixLiteral{Type: typ, LogSlots: L, Levels: levels, Format: format, BitReversed: bitrev}
+						out := Try(func() string {
+							var ms []string
+							for _, m := range lit.GenMatrices(logN, 128) {
+								var idx []int
+								for d := range m {
+									idx = append(idx, d)
+								}
+								sort.Ints(idx)
+								var ds []string
+								for _, d := range idx {
+									if len(m[d]) != length {
+										return fmt.Sprintf("length %d", len(m[d]))
+									}
+									codes := make([]uint64, length)
+									for x := 0; x < length; x++ {
+										v := toC(m[d][x]) / complex(sigma, 0)
+										if cmplx.Abs(v) < 1e-9 {
+											codes[x] = uint64(4 * n)
+											continue
+										}
+										k := int(math.Round(cmplx.Phase(v)*float64(4*n)/(2*math.Pi))) % (4 * n)
+										if k < 0 {
+											k += 4 * n
+										}
+										if cmplx.Abs(v-cmplx.Rect(1, 2*math.Pi*float64(k)/float64(4*n))) > 1e-9 {
+											return "not-a-root"
+										}
+										codes[x] = uint64(k)
+									}
+									ds = append(ds, I(d)+":"+Vec(codes))
+								}
+								ms = append(ms, strings.Join(ds, ";"))
+							}
+							return strings.Join(ms, "/")
+						})
+						c.Emit(fmt.Sprintf("dft_layers enc=%s logSlots=%d logN=%d repack=%s bitrev=%s split=%s", b01(enc), L, logN,
+							b01(format == dft.RepackImagAsReal), b01(bitrev), b01(format == dft.SplitRealAndImag)), out)
+						c.Count("dft_layers")
 					}
-					ms = append(ms, strings.Join(ds, ";"))
 				}
-				return strings.Join(ms, "/")
-			})
-			c.Emit(fmt.Sprintf("dft_layers enc=%s logSlots=%d", b01(enc), L), out)
-			c.Count("dft_layers")
+			}
 		}
 	}
 	// merged factorisations = product of the layers (dense matrices, float64), real code only
@@ -501,67 +524,85 @@ func c18C2SS2C(c *Ctx) {
 	ecd := ckks.NewEncoder(params)
 	enc := rlwe.NewEncryptor(params, sk)
 	dec := rlwe.NewDecryptor(params, sk)
-	for _, logSlots := range []int{logN - 1, logN - 2, 3, 1} {
-		for _, split := range [][2][]int{{{1, 1}, {1, 1}}, {{1}, {1}}, {{2, 1}, {1, 2}}} {
-			dc, ds := 0, 0
-			for _, x := range split[0] {
-				dc += x
-			}
-			for _, x := range split[1] {
-				ds += x
-			}
-			if dc > logSlots || ds > logSlots {
-				continue
-			}
-			c2s := dft.MatrixLiteral{Type: dft.HomomorphicEncode, Format: dft.RepackImagAsReal, LogSlots: logSlots, LevelQ: params.MaxLevel(), LevelP: params.MaxLevelP(), Levels: split[0], LogBSGSRatio: 1}
-			s2c := dft.MatrixLiteral{Type: dft.HomomorphicDecode, Format: dft.RepackImagAsReal, LogSlots: logSlots, LevelQ: params.MaxLevel() - len(split[0]), LevelP: params.MaxLevelP(), Levels: split[1], LogBSGSRatio: 1}
-			detail := ""
-			func() {
-				defer func() {
-					if r := recover(); r != nil {
-						detail = fmt.Sprintf("panic:%v", r)
+	slotsList := []int{logN - 1, logN - 2, 3, 1}
+	if c.Thorough() {
+		slotsList = nil
+		for l := 1; l <= logN-1; l++ {
+			slotsList = append(slotsList, l)
+		}
+	}
+	for _, bitrev := range []bool{false, true} {
+		for _, format := range []dft.Format{dft.RepackImagAsReal, dft.Standard, dft.SplitRealAndImag} {
+			for _, logSlots := range slotsList {
+				for si, split := range [][2][]int{{{1, 1}, {1, 1}}, {{1}, {1}}, {{2, 1}, {1, 2}}} {
+					if !c.Thorough() && (bitrev || format != dft.RepackImagAsReal) && si != 0 && !(si == 2 && logSlots == logN-2) {
+						continue // quick tier: the other layouts with the two-level split (and one grouped split)
 					}
-				}()
-				mc, err := dft.NewMatrixFromLiteral(params, c2s, ecd)
-				must(err)
-				ms, err := dft.NewMatrixFromLiteral(params, s2c, ecd)
-				must(err)
-				gal := append(c2s.GaloisElements(params), s2c.GaloisElements(params)...)
-				gal = append(gal, params.GaloisElementForComplexConjugation())
-				evk := rlwe.NewMemEvaluationKeySet(kgen.GenRelinearizationKeyNew(sk), kgen.GenGaloisKeysNew(c18Sorted(gal), sk)...)
-				ev := ckks.NewEvaluator(params, evk)
-				de := dft.NewEvaluator(params, ev)
-				vals := c18RandValues(c, 1<<logSlots)
-				pt := ckks.NewPlaintext(params, params.MaxLevel())
-				pt.LogDimensions = ring.Dimensions{Rows: 0, Cols: logSlots}
-				must(ecd.Encode(vals, pt))
-				ct, err := enc.EncryptNew(pt)
-				must(err)
-				re, im, err := de.CoeffsToSlotsNew(ct, mc)
-				if err != nil {
-					detail = "c2s-error"
-					return
+					dc, ds := 0, 0
+					for _, x := range split[0] {
+						dc += x
+					}
+					for _, x := range split[1] {
+						ds += x
+					}
+					if dc > logSlots || ds > logSlots {
+						continue
+					}
+					c2s := dft.MatrixLiteral{Type: dft.HomomorphicEncode, Format: format, BitReversed: bitrev, LogSlots: logSlots, LevelQ: params.MaxLevel(), LevelP: params.MaxLevelP(), Levels: split[0], LogBSGSRatio: 1}
+					s2c := dft.MatrixLiteral{Type: dft.HomomorphicDecode, Format: format, BitReversed: bitrev, LogSlots: logSlots, LevelQ: params.MaxLevel() - len(split[0]), LevelP: params.MaxLevelP(), Levels: split[1], LogBSGSRatio: 1}
+					detail := ""
+					func() {
+						defer func() {
+							if r := recover(); r != nil {
+								detail = fmt.Sprintf("panic:%v", r)
+							}
+						}()
+						mc, err := dft.NewMatrixFromLiteral(params, c2s, ecd)
+						must(err)
+						ms, err := dft.NewMatrixFromLiteral(params, s2c, ecd)
+						must(err)
+						gal := append(c2s.GaloisElements(params), s2c.GaloisElements(params)...)
+						gal = append(gal, params.GaloisElementForComplexConjugation())
+						evk := rlwe.NewMemEvaluationKeySet(kgen.GenRelinearizationKeyNew(sk), kgen.GenGaloisKeysNew(c18Sorted(gal), sk)...)
+						ev := ckks.NewEvaluator(params, evk)
+						de := dft.NewEvaluator(params, ev)
+						vals := c18RandValues(c, 1<<logSlots)
+						pt := ckks.NewPlaintext(params, params.MaxLevel())
+						pt.LogDimensions = ring.Dimensions{Rows: 0, Cols: logSlots}
+						must(ecd.Encode(vals, pt))
+						ct, err := enc.EncryptNew(pt)
+						must(err)
+						// real and imaginary parts in two ciphertexts for SplitRealAndImag (any packing) and for dense RepackImagAsReal
+						re := ckks.NewCiphertext(params, 1, mc.LevelQ)
+						var im *rlwe.Ciphertext
+						if format == dft.SplitRealAndImag || (format == dft.RepackImagAsReal && logSlots == params.LogMaxSlots()) {
+							im = ckks.NewCiphertext(params, 1, mc.LevelQ)
+						}
+						if err = de.CoeffsToSlots(ct, mc, re, im); err != nil {
+							detail = "c2s-error"
+							return
+						}
+						out, err := de.SlotsToCoeffsNew(re, im, ms)
+						if err != nil {
+							detail = "s2c-error"
+							return
+						}
+						st := ckks.GetPrecisionStats(params, ecd, dec, vals, out, 0, false)
+						minBits := 18.0
+						if dc != len(split[0]) || ds != len(split[1]) {
+							minBits = 12 // the matrices of a group of two carry half of a 45-bit prime each
+						}
+						if st.AVGLog2Prec.Real < minBits || st.AVGLog2Prec.Imag < minBits {
+							detail = fmt.Sprintf("precision real=%d imag=%d bits", int(st.AVGLog2Prec.Real), int(st.AVGLog2Prec.Imag))
+						}
+					}()
+					key := "C18-c2s-s2c"
+					if dc != len(split[0]) || ds != len(split[1]) {
+						key = "C18-grouped-split-rescale"
+					}
+					c.Probe("c2s_s2c_inverse", fmt.Sprintf("logN=%d logSlots=%d format=%d bitrev=%s c2s=%s s2c=%s measured=1", logN, logSlots, int(format), b01(bitrev), IVec(split[0]), IVec(split[1])), key, detail)
 				}
-				// the encode direction returns 2*Re, 2*Im scaled by 1/(2n) * n ... the pair is mapped back by S2C
-				out, err := de.SlotsToCoeffsNew(re, im, ms)
-				if err != nil {
-					detail = "s2c-error"
-					return
-				}
-				st := ckks.GetPrecisionStats(params, ecd, dec, vals, out, 0, false)
-				minBits := 18.0
-				if dc != len(split[0]) || ds != len(split[1]) {
-					minBits = 12 // the matrices of a group of two carry half of a 45-bit prime each
-				}
-				if st.AVGLog2Prec.Real < minBits || st.AVGLog2Prec.Imag < minBits {
-					detail = fmt.Sprintf("precision real=%d imag=%d bits", int(st.AVGLog2Prec.Real), int(st.AVGLog2Prec.Imag))
-				}
-			}()
-			key := "C18-c2s-s2c"
-			if dc != len(split[0]) || ds != len(split[1]) {
-				key = "C18-grouped-split-rescale"
 			}
-			c.Probe("c2s_s2c_inverse", fmt.Sprintf("logN=%d logSlots=%d c2s=%s s2c=%s measured=1", logN, logSlots, IVec(split[0]), IVec(split[1])), key, detail)
 		}
 	}
 }
@@ -790,6 +831,25 @@ func c18Configs(c *Ctx) []c18Cfg {
 	hp.LogDefaultScale = 80
 	out = append(out, c18Cfg{name: "iter_reserved", res: hp, btp: bootstrapping.ParametersLiteral{LogN: utils.Pointy(logN),
 		IterationsParameters: &bootstrapping.IterationsParameters{BootstrappingPrecision: []float64{25, 25}, ReservedPrimeBitSize: 28}},
+		ratioAdj: func(res ckks.Parameters, p bootstrapping.Parameters) int {
+			return utils.Min(utils.Max(16-res.LogN(), 0), 8)
+		}, minPrec: 12})
+
+	// 9b. residual parameters with LogDefaultScale > 64 (two primes per level) WITHOUT IterationsParameters: the
+	// copy-and-rescale branch of Evaluate must work from the untouched input scale
+	p80 := bootstrapping.DefaultParametersSparse[0].SchemeParams
+	p80.LogN = logN
+	p80.LogQ = []int{60, 40}
+	p80.LogDefaultScale = 80
+	out = append(out, c18Cfg{name: "prec128_plain80", res: p80, btp: bootstrapping.ParametersLiteral{LogN: utils.Pointy(logN)},
+		ratioAdj: func(res ckks.Parameters, p bootstrapping.Parameters) int {
+			return utils.Min(utils.Max(16-res.LogN(), 0), 8)
+		}, minPrec: 12})
+	p90 := bootstrapping.DefaultParametersSparse[0].SchemeParams
+	p90.LogN = logN
+	p90.LogQ = []int{60, 45, 45}
+	p90.LogDefaultScale = 90
+	out = append(out, c18Cfg{name: "prec128_plain90", res: p90, btp: bootstrapping.ParametersLiteral{LogN: utils.Pointy(logN)},
 		ratioAdj: func(res ckks.Parameters, p bootstrapping.Parameters) int {
 			return utils.Min(utils.Max(16-res.LogN(), 0), 8)
 		}, minPrec: 12})
@@ -1060,6 +1120,7 @@ func c18Pipeline(c *Ctx, cfg c18Cfg) {
 			ct, err := enc.EncryptNew(pt)
 			must(err)
 			logk.reset()
+			ctBefore := ct.CopyNew()
 			var out *rlwe.Ciphertext
 			status := Try(func() string {
 				var e error
@@ -1101,6 +1162,43 @@ func c18Pipeline(c *Ctx, cfg c18Cfg) {
 				detail = fmt.Sprintf("LogDimensions.Cols %d != %d", out.LogDimensions.Cols, ls)
 			}
 			c.Probe("output_level_scale", args, "C18-output-level", detail)
+			if iterated {
+				// this path works on a copy (`eval.bootstrap(ctIn.CopyNew())`) and reads ctIn.Scale afterwards:
+				// the caller's ciphertext must come back untouched (limbs and metadata)
+				detail = ""
+				if !c18CtEqual(ctBefore, ct) || ct.LogDimensions != ctBefore.LogDimensions || ct.IsNTT != ctBefore.IsNTT {
+					detail = "Bootstrap modified its input ciphertext"
+				}
+				c.Probe("input_unchanged", args+" api=Bootstrap", "C18-input-modified", detail)
+				if !diff && !ci {
+					ct2 := ctBefore.CopyNew()
+					var o2 *rlwe.Ciphertext
+					st2 := Try(func() string {
+						var e error
+						if o2, e = eval.Evaluate(ct2); e != nil {
+							return "err"
+						}
+						return "ok"
+					})
+					detail = ""
+					switch {
+					case st2 != "ok":
+						detail = "Evaluate " + st2
+					case !o2.Scale.Equal(ctBefore.Scale):
+						detail = fmt.Sprintf("Evaluate returned log2(scale) = %d, input scale 2^%d", int(math.Round(o2.Scale.Log2())), int(math.Round(ctBefore.Scale.Log2())))
+					case o2.Level() != res.MaxLevel():
+						detail = fmt.Sprintf("Evaluate returned level %d", o2.Level())
+					case !c18CtEqual(ctBefore, ct2):
+						detail = "Evaluate modified its input ciphertext"
+					default:
+						st := ckks.GetPrecisionStats(res, ecd, dec, vals, o2, 0, false)
+						if mp := c18MinPrec(cfg, res); !(st.AVGLog2Prec.Real >= mp && st.AVGLog2Prec.Imag >= mp) {
+							detail = fmt.Sprintf("Evaluate: avg log2 precision %d bits", int(math.Min(st.AVGLog2Prec.Real, st.AVGLog2Prec.Imag)))
+						}
+					}
+					c.Probe("evaluate_scale_precision", args+" measured=1", "C18-evaluate-scale", detail)
+				}
+			}
 
 			st := ckks.GetPrecisionStats(res, ecd, dec, vals, out, 0, false)
 			mp := c18MinPrec(cfg, res)
